@@ -298,7 +298,7 @@ def run_grid(acc, case, completeness=False):
     wide = case.get("wide", True)
     kept = []
     total = 0
-    for cand in cd.enumerate_candidates(spec, wide=wide, limit=case.get("enum_limit", 30000), rng=rng,
+    for cand in cd.enumerate_candidates(spec, wide=wide, limit=case.get("enum_limit", 8000), rng=rng,
                                         task_lo=case.get("lo"), task_hi=case.get("hi")):
         total += 1
         status, rep_c = cd.classify(spec, cand)
